@@ -108,7 +108,7 @@ Proof.
   - (* @extend_super def *)
     cb H g1 nN E1. destruct (P_fresh _ _ _ _ _ _ P E1) as (P1 & -> & L1 & F1 & O1).
     pose proof (Inv_cd_fresh _ _ _ _ _ I E1) as I1.
-    destruct cur as [|s0 l0|n f]; [| discriminate |].
+    destruct cur as [|s0 l0|n f].
     + cb H g2 ms E2. destruct (base_mixins_P _ _ _ _ _ P1 I1 E2) as (P2 & I2 & L2 & O2).
       assert (IsFn g2 (length g) [((d_sig d, 0%Z), d_label d)] []) as FN
         by (eapply IsFn_frame; [exact F1 | apply O2; lia]).
@@ -122,6 +122,14 @@ Proof.
         destruct (P_add_mixins _ _ _ _ _ _ _ _ P4 Lp F4 E5) as (P5 & L5 & F5 & O5).
         pose proof (Inv_cd_add_mixins _ _ _ _ _ I4 E5) as I5.
         splits; cbn [cur_ok]; splits; eauto; try (destruct P; lia); try lia.
+    + (* a plain def is already bound: it is wrapped into a fresh function p, the marked one becomes a mixin of p *)
+      cb H g2 p E2. destruct (P_fresh _ _ _ _ _ _ P1 E2) as (P2 & -> & L2 & F2 & O2).
+      pose proof (Inv_cd_fresh _ _ _ _ _ I1 E2) as I2.
+      assert (length g0 <= length g1) as Lp by (destruct P1; lia).
+      cb H g3 u3 E3. injection H as <- <-.
+      destruct (P_add_mixins _ _ _ _ _ _ _ _ P2 Lp F2 E3) as (P3 & L3 & F3 & O3).
+      pose proof (Inv_cd_add_mixins _ _ _ _ _ I2 E3) as I3.
+      splits; cbn [cur_ok]; splits; eauto; try (destruct P; lia); try lia.
     + destruct C as (Ln & own & ms & F).
       assert (IsFn g1 n own ms) as F' .
       { eapply IsFn_frame; [exact F | apply O1]. destruct F as (x & Ex & _). eapply g_get_lt; eauto. }
